@@ -86,7 +86,7 @@ impl System {
             })?;
         topic.reassign_consumer_groups().await;
         if let Some(partitions) = partitions {
-            self.metrics.decrement_partitions(partitions_count);
+            self.metrics.decrement_partitions(partitions.partitions_count);
             self.metrics.decrement_segments(partitions.segments_count);
             self.metrics.decrement_messages(partitions.messages_count);
         }
